@@ -1,3 +1,993 @@
 import ViaProofs.Statements
+import ViaProofs.C05
+/-
+  C07 — client-side response reception is faithful and fragmentation-invariant.
+
+  The client's receiver shares the header and chunk parsers with the server (laws in `Frag/`).  This file lifts them
+  to `response_receiver::receive` and to the per-read loop of `http_client::receive_handler`, exactly as
+  `ViaProofs/C01.lean` does for requests:
+  * `RS.receive_head_seq`, `RS.receive_head_fail_seq`  one `receive` call versus two while the response head is
+                               being received / when it is rejected (a malformed response is INVALID whatever the cut);
+  * `C07_frag`                 for every byte stream whose single-read run is clean (nothing rejected, every byte
+                               consumed) every partition into non-empty reads delivers exactly the same responses and
+                               chunks (status, reason, version, header fields, body, chunk data, extensions, trailers).
+
+  The proof of `C07_frag` follows `C01.lean`: `C07.step_split` (one `receive` call on `a ++ b` versus the call on
+  `a` followed by the rest of the loop on what it left and `b`), `C07.run_split` (two reads), `C07.feedE_flatten`
+  (any number of reads), with the reachable-state invariant and the progress theorem of `C05.lean` (`RS.Ok`,
+  `RS.receive_progress`, `RS.ok_step`).  The only read-dependent branch of `response_receiver::receive` — a response
+  without Content-Length and bytes in the buffer — swallows the whole buffer and can never complete
+  (`C07.body_lengthless`), so a run through it does not end in the initial state: `RClean` excludes it.
+-/
 namespace Via
+
+namespace C07
+
+/-- `rx_response::parse` returns `true` exactly when it sets `valid` -/
+theorem RP_parse_valid (cfg : Cfg) (q : RP) (buf : Bytes) (hv : q.valid = false) :
+    (RP.parse cfg q buf).1.valid = (RP.parse cfg q buf).2.2 := by
+  unfold RP.parse
+  dsimp only
+  repeat' split
+  all_goals simp_all
+
+theorem RP_not_done (q : RP) (hd : RP.done q = false) :
+    q.valid = false ∧ RP.fail q = false := by
+  simp only [RP.done, Bool.or_eq_false_iff] at hd
+  simp [RP.fail, MH.fail, hd]
+
+theorem RP_done_of (q : RP) (hv : q.valid = false) (hf : RP.fail q = false) : RP.done q = false := by
+  simp only [RP.fail, MH.fail, Bool.or_eq_false_iff] at hf
+  simp [RP.done, hv, hf]
+
+set_option linter.unusedSimpArgs false in
+/-- the first part of `receive` while the response head is being parsed -/
+theorem receive_head (cfg : Cfg) (r : RS) (buf : Bytes) (hv : r.response.valid = false) :
+    RS.receive cfg r buf =
+      (let p := RP.parse cfg r.response buf
+       let r1 := { r with response := p.1 }
+       if p.2.2 = false then
+         if p.2.1 ≠ [] ∨ p.1.fail = true then (({} : RS), p.2.1, .invalid)
+         else (r1, p.2.1, .incomplete)
+       else C05.RS_tail cfg r1 true p.2.1) := by
+  unfold RS.receive C05.RS_tail
+  simp only [hv, Bool.not_false, if_true]
+  generalize RP.parse cfg r.response buf = p
+  obtain ⟨q1, rest, bo⟩ := p
+  cases bo with
+  | true =>
+    simp only [Bool.not_true, Bool.false_eq_true, if_false]
+    rfl
+  | false => cases rest <;> cases hf : q1.fail <;> simp [hf, RS.clear, RP.fail]
+
+end C07
+
+theorem RS.receive_head_seq (cfg : Cfg) (r : RS) (a b : Bytes)
+    (hv : r.response.valid = false) (hd : RP.done r.response = false)
+    (hinc : RP.done (RP.parse cfg r.response a).1 = false ∧ (RP.parse cfg r.response a).2.1 = []) :
+    RS.receive cfg r a = ({ r with response := (RP.parse cfg r.response a).1 }, [], .incomplete) ∧
+    RS.receive cfg r (a ++ b) = RS.receive cfg { r with response := (RP.parse cfg r.response a).1 } b := by
+  obtain ⟨h1, h2⟩ := hinc
+  obtain ⟨hv1, hf1⟩ := C07.RP_not_done _ h1
+  have hb := C07.RP_parse_valid cfg r.response a hv
+  rw [hv1] at hb
+  have law := RP.parse_seq cfg r.response a b hd
+  simp only [h1, h2, List.isEmpty_nil, Bool.not_true, Bool.or_self, Bool.false_eq_true, if_false] at law
+  constructor
+  · rw [C07.receive_head cfg r a hv]
+    simp [← hb, h2, hf1]
+  · rw [C07.receive_head cfg r (a ++ b) hv, C07.receive_head cfg _ b hv1, law]
+
+theorem RS.receive_head_fail_seq (cfg : Cfg) (r : RS) (a b : Bytes)
+    (hv : r.response.valid = false) (hd : RP.done r.response = false)
+    (hfail : (RP.parse cfg r.response a).2.2 = false ∧
+             ((RP.parse cfg r.response a).1.fail = true ∨ (RP.parse cfg r.response a).2.1 ≠ [])) :
+    (RS.receive cfg r a).2.2 = .invalid ∧
+    RS.receive cfg r (a ++ b) = ((RS.receive cfg r a).1, (RS.receive cfg r a).2.1 ++ b, .invalid) := by
+  obtain ⟨h1, h2⟩ := hfail
+  have law := RP.parse_seq cfg r.response a b hd
+  have hc : (RP.done (RP.parse cfg r.response a).1 || !(RP.parse cfg r.response a).2.1.isEmpty) = true := by
+    rcases h2 with h2 | h2
+    · have : RP.done (RP.parse cfg r.response a).1 = true := by
+        simp only [RP.fail, MH.fail, Bool.or_eq_true] at h2
+        simp only [RP.done, Bool.or_eq_true]
+        rcases h2 with h2 | h2
+        · exact Or.inl (Or.inr h2)
+        · exact Or.inr h2
+      simp [this]
+    · cases h : (RP.parse cfg r.response a).2.1 with
+      | nil => exact absurd h h2
+      | cons c cs => simp
+  simp only [hc, if_true] at law
+  have hcond : ((RP.parse cfg r.response a).2.1 ≠ [] ∨ (RP.parse cfg r.response a).1.fail = true) := h2.symm
+  have hcond' : ((RP.parse cfg r.response a).2.1 ++ b ≠ [] ∨ (RP.parse cfg r.response a).1.fail = true) := by
+    rcases hcond with h | h
+    · left
+      intro e
+      exact h (List.append_eq_nil_iff.mp e).1
+    · exact Or.inr h
+  rw [C07.receive_head cfg r (a ++ b) hv, C07.receive_head cfg r a hv, law]
+  simp only [h1, if_true, hcond, hcond']
+  exact ⟨trivial, trivial⟩
+
+
+/-- `http_client::receive_handler` applied to successive reads -/
+def RS.feed (cfg : Cfg) (r : RS) : List Bytes → RS × List RDelivery
+  | [] => (r, [])
+  | rd :: rest =>
+    let x := RS.readLoop cfg (rd.length + 1) r rd []
+    let y := RS.feed cfg x.1 rest
+    (y.1, x.2.2 ++ y.2)
+
+/-- what a response / chunk handler can observe -/
+structure RView where
+  rx : Rx
+  status : Nat
+  reason : Bytes
+  major : Byte
+  minor : Byte
+  fields : Fields
+  body : Bytes
+  chunkSize : Nat
+  chunkExt : Bytes
+  chunkData : Bytes
+  trailers : Fields
+deriving DecidableEq, Repr
+
+def rviewOf (d : RDelivery) : RView :=
+  let r := d.snapshot
+  { rx := d.rx, status := r.response.line.status, reason := r.response.line.reason, major := r.response.line.major,
+    minor := r.response.line.minor, fields := r.response.headers.fields, body := r.body,
+    chunkSize := r.chunk.hdr.size, chunkExt := r.chunk.hdr.ext, chunkData := r.chunk.data,
+    trailers := r.chunk.trailers.fields }
+
+def rpayload (ds : List RDelivery) : List RView :=
+  (ds.filter fun d => d.rx == .valid || d.rx == .chunk).map rviewOf
+
+/-- the single-read run is clean: nothing is rejected, every byte is consumed and every response is complete (the
+    receiver is back in its initial state).  The last condition excludes a response WITHOUT Content-Length and without
+    chunked coding that has a body: its body is delimited by the close of the connection, and whether bytes that
+    follow the head belong to it depends on whether they arrive in the same read (outside the property, see C05). -/
+def RClean (cfg : Cfg) (bs : Bytes) : Prop :=
+  let x := RS.readLoop cfg (bs.length + 1) {} bs []
+  x.2.1 = [] ∧ (∀ d ∈ x.2.2, d.rx ≠ .invalid) ∧ x.1 = {}
+
+def C07_frag_statement : Prop :=
+  ∀ (cfg : Cfg) (bs : Bytes), RClean cfg bs →
+    ∀ (ps : List Bytes), ps.flatten = bs → (∀ p ∈ ps, p ≠ []) →
+      rpayload (RS.feed cfg {} ps).2 = rpayload (RS.feed cfg {} [bs]).2
+
+namespace C07
+
+/-! ### `rx_chunk::parse` returns `true` exactly when it sets `valid` -/
+
+theorem CK_lf_valid (k : CK) (x : Bytes) (hv : k.valid = false) :
+    (Cmp.CK_lf k x).1.valid = (Cmp.CK_lf k x).2.2 := by
+  cases x with
+  | nil => exact hv
+  | cons d ds =>
+    simp only [Cmp.CK_lf]
+    split
+    · exact hv
+    · rfl
+
+theorem CK_tail_valid (cfg : Cfg) (k : CK) (x : Bytes) (hv : k.valid = false) :
+    (Cmp.CK_tail cfg k x).1.valid = (Cmp.CK_tail cfg k x).2.2 := by
+  cases x with
+  | nil => exact hv
+  | cons c cs =>
+    simp only [Cmp.CK_tail]
+    split
+    · exact CK_lf_valid _ _ hv
+    · split
+      · exact hv
+      · exact CK_lf_valid _ _ hv
+
+theorem CK_body_valid (cfg : Cfg) (k : CK) (x : Bytes) (hv : k.valid = false) :
+    (Cmp.CK_body cfg k x).1.valid = (Cmp.CK_body cfg k x).2.2 := by
+  unfold Cmp.CK_body
+  split
+  · dsimp only
+    split
+    · exact hv
+    · rfl
+  · rw [Cmp.CK_parseData_eq]
+    split
+    · exact CK_tail_valid cfg _ _ hv
+    · exact hv
+
+theorem CK_parse_valid (cfg : Cfg) (k : CK) (x : Bytes) (hv : k.valid = false) :
+    (CK.parse cfg k x).1.valid = (CK.parse cfg k x).2.2 := by
+  rw [Cmp.CK_parse_eq]
+  unfold Cmp.seq2
+  split
+  · exact CK_body_valid cfg k x hv
+  · dsimp only
+    split
+    · exact CK_body_valid cfg _ _ hv
+    · exact hv
+
+theorem CK_fail_of_done (k : CK) (hv : k.valid = false) (hd : CK.done k = true) : CK.fail k = true := by
+  simp only [CK.done, hv, Bool.false_or] at hd
+  simpa [CK.fail, MH.fail] using hd
+
+theorem CK_done_of (k : CK) (hv : k.valid = false) (hf : CK.fail k = false) : CK.done k = false := by
+  simp only [CK.fail, MH.fail, Bool.or_eq_false_iff] at hf
+  simp [CK.done, hv, hf]
+
+/-! ### the chunked branch in normal form -/
+
+/-- the previous chunk is dropped when a new one starts -/
+def reset (r : RS) : RS := if r.chunk.valid then { r with chunk := {} } else r
+
+/-- parse chunk bytes and classify the result -/
+def chunkParse (cfg : Cfg) (r : RS) (buf : Bytes) : RS × Bytes × Rx :=
+  let p := CK.parse cfg r.chunk buf
+  let r := { r with chunk := p.1 }
+  if !p.2.2 && (!p.2.1.isEmpty || r.chunk.fail) then (({} : RS), p.2.1, .invalid)
+  else if r.chunk.valid then (r, p.2.1, .chunk)
+  else (r, p.2.1, .incomplete)
+
+theorem tail_chunked (cfg : Cfg) (r : RS) (rp : Bool) (buf : Bytes) (hc : r.response.headers.isChunked = true) :
+    C05.RS_tail cfg r rp buf = if rp then (reset r, buf, .valid) else chunkParse cfg (reset r) buf := by
+  unfold C05.RS_tail C05.RS_chunkCore
+  simp only [hc, Bool.not_true, Bool.false_eq_true, if_false]
+  rfl
+
+theorem reset_facts (r : RS) : (reset r).response = r.response ∧ (reset r).body = r.body ∧
+    (reset r).chunk.valid = false ∧
+    ((r.chunk.valid = false → CK.done r.chunk = false) → CK.done (reset r).chunk = false) := by
+  unfold reset
+  split
+  · exact ⟨rfl, rfl, rfl, fun _ => rfl⟩
+  · rename_i h
+    have : r.chunk.valid = false := by simpa using h
+    exact ⟨rfl, rfl, this, fun h => h this⟩
+
+theorem reset_of_not_valid (r : RS) (h : r.chunk.valid = false) : reset r = r := by
+  unfold reset
+  simp [h]
+
+theorem chunkParse_fin (cfg : Cfg) (r : RS) (x b : Bytes) (hv : r.chunk.valid = false)
+    (hd : CK.done r.chunk = false)
+    (hc : (CK.done (CK.parse cfg r.chunk x).1 || !(CK.parse cfg r.chunk x).2.1.isEmpty) = true) :
+    chunkParse cfg r (x ++ b) =
+      ((chunkParse cfg r x).1, (chunkParse cfg r x).2.1 ++ b, (chunkParse cfg r x).2.2) := by
+  have law := CK.parse_seq cfg r.chunk x b hd
+  have hval := CK_parse_valid cfg r.chunk x hv
+  simp only [hc, if_true] at law
+  unfold chunkParse
+  rw [law]
+  generalize CK.parse cfg r.chunk x = P at hc hval
+  obtain ⟨k1, rest, bo⟩ := P
+  dsimp only at hc hval ⊢
+  have hcond : (!bo && (!(rest ++ b).isEmpty || k1.fail)) = (!bo && (!rest.isEmpty || k1.fail)) := by
+    cases bo with
+    | true => rfl
+    | false =>
+      cases rest with
+      | cons c cs => simp
+      | nil =>
+        have : CK.done k1 = true := by simpa using hc
+        simp [CK_fail_of_done k1 hval this]
+  rw [hcond]
+  repeat' split
+  all_goals rfl
+
+theorem chunkParse_cont (cfg : Cfg) (r : RS) (x b : Bytes) (hv : r.chunk.valid = false)
+    (hd : CK.done r.chunk = false)
+    (hc : (CK.done (CK.parse cfg r.chunk x).1 || !(CK.parse cfg r.chunk x).2.1.isEmpty) = false) :
+    chunkParse cfg r x = ({ r with chunk := (CK.parse cfg r.chunk x).1 }, [], .incomplete) ∧
+    (CK.parse cfg r.chunk x).1.valid = false ∧ CK.done (CK.parse cfg r.chunk x).1 = false ∧
+    chunkParse cfg r (x ++ b) = chunkParse cfg { r with chunk := (CK.parse cfg r.chunk x).1 } b := by
+  have law := CK.parse_seq cfg r.chunk x b hd
+  have hval := CK_parse_valid cfg r.chunk x hv
+  simp only [hc, Bool.false_eq_true, if_false] at law
+  simp only [Bool.or_eq_false_iff, Bool.not_eq_false', List.isEmpty_iff] at hc
+  obtain ⟨hc1, hc2⟩ := hc
+  have hv1 : (CK.parse cfg r.chunk x).1.valid = false := by
+    simp only [CK.done, Bool.or_eq_false_iff] at hc1
+    exact hc1.1.1
+  have hf1 : (CK.parse cfg r.chunk x).1.fail = false := by
+    simp only [CK.done, Bool.or_eq_false_iff] at hc1
+    simp [CK.fail, MH.fail, hc1]
+  refine ⟨?_, hv1, hc1, ?_⟩
+  · unfold chunkParse
+    rw [hv1] at hval
+    simp [← hval, hc2, hf1, hv1]
+  · unfold chunkParse
+    rw [law]
+
+theorem chunkParse_shape (cfg : Cfg) (r : RS) (buf : Bytes) (hv : r.chunk.valid = false) :
+    (chunkParse cfg r buf).2.2 = .invalid ∨
+    ((chunkParse cfg r buf).1.response = r.response ∧
+     ((chunkParse cfg r buf).1.chunk.valid = false → CK.done (chunkParse cfg r buf).1.chunk = false)) := by
+  have hval := CK_parse_valid cfg r.chunk buf hv
+  unfold chunkParse
+  dsimp only
+  by_cases h1 : (!(CK.parse cfg r.chunk buf).2.2 &&
+      (!(CK.parse cfg r.chunk buf).2.1.isEmpty || (CK.parse cfg r.chunk buf).1.fail)) = true
+  · rw [if_pos h1]; exact Or.inl rfl
+  · rw [if_neg h1]
+    by_cases h2 : (CK.parse cfg r.chunk buf).1.valid = true
+    · rw [if_pos h2]
+      exact Or.inr ⟨rfl, fun h => by rw [h2] at h; cases h⟩
+    · rw [if_neg h2]
+      right
+      refine ⟨rfl, fun _ => ?_⟩
+      have h2' : (CK.parse cfg r.chunk buf).1.valid = false := by simpa using h2
+      rw [h2'] at hval
+      have hf : (CK.parse cfg r.chunk buf).1.fail = false := by
+        cases hf : (CK.parse cfg r.chunk buf).1.fail
+        · rfl
+        · exfalso; apply h1; simp [← hval, hf]
+      exact CK_done_of _ h2' hf
+
+/-! ### the non-chunked branch in normal form -/
+
+/-- the number of body bytes taken from a buffer of `m` bytes when `n` are stored: `min m (cl - n)` -/
+def takeN (cl : Int) (n m : Nat) : Nat := if (m : Int) > cl - n then (cl - n).toNat else m
+
+/-- the accumulation step when the length of the body is known -/
+def accum (r : RS) (buf : Bytes) : RS × Bytes × Rx :=
+  let cl : Int := r.response.headers.contentLength
+  let take : Nat := takeN cl r.body.length buf.length
+  let r1 := { r with body := r.body ++ buf.take take }
+  if (r1.body.length : Int) == cl then (r1, buf.drop take, .valid)
+  else (r1, buf.drop take, .incomplete)
+
+/-- no Content-Length header -/
+def lengthless (r : RS) : Bool := (r.response.headers.fields.find (b!"content-length")).isEmpty
+
+theorem lengthless_cl (r : RS) (h : lengthless r = true) : r.response.headers.contentLength = 0 :=
+  C05.RS_contentLength_absent r h
+
+/-- with a Content-Length header the buffer does not influence the length -/
+theorem body_known (cfg : Cfg) (r : RS) (buf : Bytes) (h : lengthless r = false) :
+    C05.RS_body cfg r buf =
+      if r.response.headers.contentLength < 0 then (({} : RS), buf, .invalid) else accum r buf := by
+  have hn : C05.RS_noCl r buf = false := by
+    unfold lengthless at h
+    simp [C05.RS_noCl, h]
+  unfold C05.RS_body
+  simp only [C05.RS_cl, hn, Bool.and_false, Bool.false_eq_true, if_false, RS.clear]
+  rfl
+
+/-- without one, a non-empty buffer is either rejected or swallowed whole, and the response can never complete -/
+theorem body_lengthless (cfg : Cfg) (r : RS) (buf : Bytes) (h : lengthless r = true) (hne : buf ≠ [])
+    (hinv : (C05.RS_body cfg r buf).2.2 ≠ .invalid) :
+    C05.RS_body cfg r buf = ({ r with body := r.body ++ buf }, [], .incomplete) := by
+  have h0 := lengthless_cl r h
+  have hpos : 0 < buf.length := List.length_pos_iff.mpr hne
+  have hn : C05.RS_noCl r buf = true := by
+    unfold lengthless at h
+    simp only [C05.RS_noCl, h0, h, Bool.and_true, beq_self_eq_true, decide_eq_true_eq]
+    omega
+  unfold C05.RS_body at hinv ⊢
+  simp only [C05.RS_cl, hn, h0, if_true, Bool.and_true] at hinv ⊢
+  have hneg : ¬ ((0 : Int) < 0) := by omega
+  simp only [hneg, if_false] at hinv ⊢
+  by_cases hov : ((buf.length : Int) > (cfg.maxContent : Int) - r.body.length)
+  · simp [hov] at hinv
+  · have htl : C05.takeLen (cfg.maxContent : Int) r.body buf = buf.length := by
+      simp [C05.takeLen, hov]
+    simp only [hov, decide_false, Bool.false_eq_true, if_false, htl, List.take_length, List.drop_length]
+    have : ¬ ((r.body.length : Int) + buf.length = 0) := by omega
+    simp [this]
+
+theorem accum_short (r : RS) (a : Bytes)
+    (h : (r.body.length : Int) + a.length < r.response.headers.contentLength) :
+    accum r a = ({ r with body := r.body ++ a }, [], .incomplete) := by
+  unfold accum takeN
+  have h1 : ¬ ((a.length : Int) > r.response.headers.contentLength - r.body.length) := by omega
+  simp only [h1, if_false, List.take_length, List.drop_length, List.length_append]
+  have h2 : ¬ ((r.body.length : Int) + a.length = r.response.headers.contentLength) := by omega
+  simp [h2]
+
+theorem accum_short_append (r : RS) (a b : Bytes)
+    (h : (r.body.length : Int) + a.length < r.response.headers.contentLength) :
+    accum r (a ++ b) = accum { r with body := r.body ++ a } b := by
+  unfold accum takeN
+  dsimp only
+  have e1 : (if ((a ++ b).length : Int) > r.response.headers.contentLength - r.body.length
+        then (r.response.headers.contentLength - r.body.length).toNat else (a ++ b).length) =
+      a.length + (if (b.length : Int) > r.response.headers.contentLength - (r.body ++ a).length
+        then (r.response.headers.contentLength - ((r.body ++ a).length : Nat)).toNat else b.length) := by
+    simp only [List.length_append]
+    split <;> split <;> omega
+  rw [e1]
+  simp only [List.take_append, List.drop_append, List.take_of_length_le (Nat.le_add_right _ _),
+    List.drop_eq_nil_of_le (Nat.le_add_right a.length _), Nat.add_sub_cancel_left, List.nil_append,
+    List.append_assoc]
+
+theorem accum_long (r : RS) (a b : Bytes)
+    (hpos : (r.body.length : Int) ≤ r.response.headers.contentLength)
+    (h : r.response.headers.contentLength ≤ (r.body.length : Int) + a.length) :
+    (accum r a).2.2 = .valid ∧
+    accum r (a ++ b) = ((accum r a).1, (accum r a).2.1 ++ b, .valid) := by
+  unfold accum takeN
+  dsimp only
+  have e1 : (if ((a ++ b).length : Int) > r.response.headers.contentLength - r.body.length
+        then (r.response.headers.contentLength - r.body.length).toNat else (a ++ b).length) =
+      (r.response.headers.contentLength - r.body.length).toNat := by
+    simp only [List.length_append]
+    split <;> omega
+  have e2 : (if (a.length : Int) > r.response.headers.contentLength - r.body.length
+        then (r.response.headers.contentLength - r.body.length).toNat else a.length) =
+      (r.response.headers.contentLength - r.body.length).toNat := by
+    split <;> omega
+  have hle : (r.response.headers.contentLength - r.body.length).toNat ≤ a.length := by omega
+  rw [e1, e2]
+  have e3 : ((r.body ++ a.take (r.response.headers.contentLength - r.body.length).toNat).length : Int)
+      = r.response.headers.contentLength := by
+    simp only [List.length_append, List.length_take]
+    omega
+  simp only [List.take_append_of_le_length hle, List.drop_append_of_le_length hle, e3, beq_self_eq_true,
+    if_true, and_self]
+
+theorem accum_facts (r : RS) (buf : Bytes) : (accum r buf).1.response = r.response ∧
+    (accum r buf).1.chunk = r.chunk ∧
+    ((accum r buf).2.2 = .valid ∨ (accum r buf).2.2 = .incomplete) := by
+  unfold accum
+  dsimp only
+  split
+  · exact ⟨rfl, rfl, Or.inl rfl⟩
+  · exact ⟨rfl, rfl, Or.inr rfl⟩
+
+
+/-! ### the client loop without the `used` bookkeeping -/
+
+/-- a delivery without the byte count -/
+abbrev Ev := Rx × RS
+
+def ev (d : RDelivery) : Ev := (d.rx, d.snapshot)
+
+def viewE (e : Ev) : RView := rviewOf { rx := e.1, used := 0, snapshot := e.2 }
+
+def pay (es : List Ev) : List RView :=
+  (es.filter fun e => e.1 == .valid || e.1 == .chunk).map viewE
+
+def okE (es : List Ev) : Prop := ∀ e ∈ es, e.1 ≠ .invalid
+
+theorem payload_eq_pay (ds : List RDelivery) : rpayload ds = pay (ds.map ev) := by
+  simp only [rpayload, pay, List.filter_map, List.map_map]
+  rfl
+
+theorem pay_append (xs ys : List Ev) : pay (xs ++ ys) = pay xs ++ pay ys := by
+  simp [pay]
+
+theorem pay_cons (e : Ev) (xs : List Ev) : pay (e :: xs) = pay [e] ++ pay xs :=
+  pay_append [e] xs
+
+theorem okE_cons (e : Ev) (xs : List Ev) : okE (e :: xs) ↔ e.1 ≠ .invalid ∧ okE xs := by
+  simp [okE]
+
+/-- `RS.readLoop` without accumulator and byte counts -/
+def loop (cfg : Cfg) : Nat → RS → Bytes → RS × Bytes × List Ev
+  | 0, r, buf => (r, buf, [])
+  | fuel + 1, r, buf =>
+    if buf.isEmpty then (r, buf, [])
+    else
+      let p := RS.receive cfg r buf
+      let r' := RS.afterResult p.1 p.2.2
+      if p.2.2 == .invalid then (r', p.2.1, [(p.2.2, p.1)])
+      else
+        let y := loop cfg fuel r' p.2.1
+        (y.1, y.2.1, (p.2.2, p.1) :: y.2.2)
+
+theorem readLoop_loop (cfg : Cfg) : ∀ (fuel : Nat) (r : RS) (buf : Bytes) (acc : List RDelivery),
+    (RS.readLoop cfg fuel r buf acc).1 = (loop cfg fuel r buf).1 ∧
+    (RS.readLoop cfg fuel r buf acc).2.1 = (loop cfg fuel r buf).2.1 ∧
+    (RS.readLoop cfg fuel r buf acc).2.2.map ev = acc.reverse.map ev ++ (loop cfg fuel r buf).2.2 := by
+  intro fuel
+  induction fuel with
+  | zero => intro r buf acc; simp [RS.readLoop, loop]
+  | succ fuel ih =>
+    intro r buf acc
+    simp only [RS.readLoop, loop]
+    split
+    · simp
+    · split
+      · simp [ev]
+      · obtain ⟨h1, h2, h3⟩ := ih (RS.afterResult (RS.receive cfg r buf).1 (RS.receive cfg r buf).2.2)
+          (RS.receive cfg r buf).2.1
+          ({ rx := (RS.receive cfg r buf).2.2, used := buf.length - (RS.receive cfg r buf).2.1.length,
+             snapshot := (RS.receive cfg r buf).1 } :: acc)
+        refine ⟨h1, h2, ?_⟩
+        rw [h3]
+        simp [ev]
+
+/-- the loop with the fuel the client gives it -/
+def run (cfg : Cfg) (r : RS) (buf : Bytes) : RS × Bytes × List Ev := loop cfg (buf.length + 1) r buf
+
+/-- the reads one after the other -/
+def feedE (cfg : Cfg) (r : RS) : List Bytes → RS × List Ev
+  | [] => (r, [])
+  | rd :: rest =>
+    let x := run cfg r rd
+    let y := feedE cfg x.1 rest
+    (y.1, x.2.2 ++ y.2)
+
+theorem feed_feedE (cfg : Cfg) (ps : List Bytes) : ∀ r : RS,
+    (RS.feed cfg r ps).1 = (feedE cfg r ps).1 ∧ (RS.feed cfg r ps).2.map ev = (feedE cfg r ps).2 := by
+  induction ps with
+  | nil => intro r; simp [RS.feed, feedE]
+  | cons p ps ih =>
+    intro r
+    obtain ⟨h1, h2, h3⟩ := readLoop_loop cfg (p.length + 1) r p []
+    simp only [RS.feed, feedE, run]
+    rw [h1]
+    obtain ⟨i1, i2⟩ := ih (loop cfg (p.length + 1) r p).1
+    refine ⟨i1, ?_⟩
+    rw [List.map_append, h3, i2]
+    simp
+
+/-! ### the reachable-state invariant -/
+
+def Inv (cfg : Cfg) (r : RS) : Prop :=
+  RS.Ok cfg r ∧
+  (r.response.valid = false → RP.done r.response = false) ∧
+  (r.chunk.valid = false → CK.done r.chunk = false)
+
+theorem inv_init (cfg : Cfg) : Inv cfg {} :=
+  ⟨RS.ok_init cfg, fun _ => rfl, fun _ => rfl⟩
+
+theorem tail_shape (cfg : Cfg) (r : RS) (rp : Bool) (buf : Bytes) (hv : r.response.valid = true)
+    (hC : r.chunk.valid = false → CK.done r.chunk = false) :
+    (C05.RS_tail cfg r rp buf).2.2 = .invalid ∨
+    ((C05.RS_tail cfg r rp buf).1.response.valid = true ∧
+     ((C05.RS_tail cfg r rp buf).1.chunk.valid = false → CK.done (C05.RS_tail cfg r rp buf).1.chunk = false)) := by
+  cases hc : r.response.headers.isChunked
+  · have e : C05.RS_tail cfg r rp buf = C05.RS_body cfg r buf := by simp [C05.RS_tail, hc]
+    rw [e]
+    unfold C05.RS_body
+    dsimp only
+    repeat' split
+    all_goals first
+      | exact Or.inl rfl
+      | exact Or.inr ⟨hv, hC⟩
+  · rw [tail_chunked cfg r rp buf hc]
+    obtain ⟨f1, _, f3, f4⟩ := reset_facts r
+    cases rp with
+    | true =>
+      simp only [if_true]
+      exact Or.inr ⟨by rw [f1]; exact hv, fun _ => f4 hC⟩
+    | false =>
+      simp only [Bool.false_eq_true, if_false]
+      rcases chunkParse_shape cfg (reset r) buf f3 with h | ⟨h1, h2⟩
+      · exact Or.inl h
+      · exact Or.inr ⟨by rw [h1, f1]; exact hv, h2⟩
+
+/-- what the invariant needs from a `receive` result -/
+theorem receive_shape (cfg : Cfg) (r : RS) (buf : Bytes) (h : Inv cfg r) :
+    (RS.receive cfg r buf).2.2 = .invalid ∨
+    (((RS.receive cfg r buf).1.response.valid = false → RP.done (RS.receive cfg r buf).1.response = false) ∧
+     ((RS.receive cfg r buf).1.chunk.valid = false → CK.done (RS.receive cfg r buf).1.chunk = false)) := by
+  obtain ⟨_, hA, hC⟩ := h
+  by_cases hv : r.response.valid = true
+  · rw [C05.RS_receive_valid cfg r buf hv]
+    rcases tail_shape cfg r false buf hv hC with h | ⟨h1, h2⟩
+    · exact Or.inl h
+    · exact Or.inr ⟨fun h => (by rw [h1] at h; cases h), h2⟩
+  · have hv' : r.response.valid = false := by simpa using hv
+    have hval := RP_parse_valid cfg r.response buf hv'
+    rw [receive_head cfg r buf hv']
+    dsimp only
+    split
+    · rename_i hbo
+      split
+      · exact Or.inl rfl
+      · rename_i hfin
+        right
+        rw [hbo] at hval
+        have hf : (RP.parse cfg r.response buf).1.fail = false := by
+          cases h : (RP.parse cfg r.response buf).1.fail
+          · rfl
+          · exact absurd (Or.inr h) hfin
+        exact ⟨fun _ => RP_done_of _ hval hf, hC⟩
+    · rename_i hbo
+      have hbo' : (RP.parse cfg r.response buf).2.2 = true := by simpa using hbo
+      rw [hbo'] at hval
+      rcases tail_shape cfg { r with response := (RP.parse cfg r.response buf).1 } true
+        (RP.parse cfg r.response buf).2.1 hval hC with h | ⟨h1, h2⟩
+      · exact Or.inl h
+      · exact Or.inr ⟨fun h => (by rw [h1] at h; cases h), h2⟩
+
+theorem inv_step (cfg : Cfg) (r : RS) (buf : Bytes) (h : Inv cfg r) :
+    Inv cfg (RS.afterResult (RS.receive cfg r buf).1 (RS.receive cfg r buf).2.2) := by
+  have hok := RS.ok_step cfg r buf h.1
+  have hsh := receive_shape cfg r buf h
+  generalize RS.receive cfg r buf = p at hok hsh
+  obtain ⟨s, rest, x⟩ := p
+  dsimp only at hok hsh ⊢
+  rcases hsh with hsh | ⟨hA, hC⟩
+  · subst hsh; exact inv_init cfg
+  · cases x with
+    | invalid => exact inv_init cfg
+    | expectContinue => exact ⟨hok, hA, hC⟩
+    | incomplete => exact ⟨hok, hA, hC⟩
+    | valid =>
+      simp only [RS.afterResult] at hok ⊢
+      split
+      · exact inv_init cfg
+      · rename_i hc
+        simp only [hc] at hok
+        exact ⟨hok, hA, hC⟩
+    | chunk =>
+      simp only [RS.afterResult] at hok ⊢
+      split
+      · exact inv_init cfg
+      · rename_i hc
+        simp only [hc] at hok
+        exact ⟨hok, hA, hC⟩
+
+theorem receive_lt (cfg : Cfg) (r : RS) (buf : Bytes) (hI : Inv cfg r) (hne : buf ≠ [])
+    (hinv : (RS.receive cfg r buf).2.2 ≠ .invalid) : (RS.receive cfg r buf).2.1.length < buf.length := by
+  rcases RS.receive_progress cfg r buf hI.1 hne with hp | hp
+  · exact absurd hp hinv
+  · exact hp
+
+/-- enough fuel is as good as any -/
+theorem loop_fuel (cfg : Cfg) : ∀ (f f' : Nat) (r : RS) (buf : Bytes), Inv cfg r →
+    buf.length < f → buf.length < f' → loop cfg f r buf = loop cfg f' r buf := by
+  intro f
+  induction f with
+  | zero => intro f' r buf _ h; omega
+  | succ f ih =>
+    intro f' r buf hI h1 h2
+    cases f' with
+    | zero => omega
+    | succ f' =>
+      simp only [loop]
+      split
+      · rfl
+      · rename_i hne
+        split
+        · rfl
+        · rename_i hinv
+          have hne' : buf ≠ [] := by intro e; simp [e] at hne
+          have hlt : (RS.receive cfg r buf).2.1.length < buf.length := by
+            apply receive_lt cfg r buf hI hne'
+            intro hp
+            simp [hp] at hinv
+          rw [ih f' _ _ (inv_step cfg r buf hI) (by omega) (by omega)]
+
+theorem run_nil (cfg : Cfg) (r : RS) : run cfg r [] = (r, [], []) := by
+  simp [run, loop]
+
+def consE (e : Ev) (x : RS × Bytes × List Ev) : RS × Bytes × List Ev := (x.1, x.2.1, e :: x.2.2)
+
+/-- a `receive` result followed by the rest of the loop -/
+def stepRun (cfg : Cfg) (p : RS × Bytes × Rx) : RS × Bytes × List Ev :=
+  consE (p.2.2, p.1) (run cfg (RS.afterResult p.1 p.2.2) p.2.1)
+
+theorem run_cons (cfg : Cfg) (r : RS) (buf : Bytes) (hI : Inv cfg r) (hne : buf ≠ [])
+    (hinv : (RS.receive cfg r buf).2.2 ≠ .invalid) : run cfg r buf = stepRun cfg (RS.receive cfg r buf) := by
+  have hlt := receive_lt cfg r buf hI hne hinv
+  have he : buf.isEmpty = false := by cases buf <;> simp_all
+  have hb : ((RS.receive cfg r buf).2.2 == Rx.invalid) = false := by
+    cases h : (RS.receive cfg r buf).2.2 <;> simp_all
+  simp only [run, stepRun, consE]
+  rw [loop]
+  simp only [he, Bool.false_eq_true, if_false, hb]
+  rw [loop_fuel cfg buf.length ((RS.receive cfg r buf).2.1.length + 1) _ _ (inv_step cfg r buf hI) hlt
+    (Nat.lt_succ_self _)]
+
+theorem run_cons_invalid (cfg : Cfg) (r : RS) (buf : Bytes) (hne : buf ≠ [])
+    (hinv : (RS.receive cfg r buf).2.2 = .invalid) : ¬ okE (run cfg r buf).2.2 := by
+  have he : buf.isEmpty = false := by cases buf <;> simp_all
+  simp only [run, loop, he, Bool.false_eq_true, if_false, hinv, beq_self_eq_true, if_true]
+  intro h
+  exact h _ (List.mem_singleton.mpr rfl) rfl
+
+theorem run_inv (cfg : Cfg) : ∀ (n : Nat) (r : RS) (buf : Bytes), buf.length ≤ n → Inv cfg r →
+    Inv cfg (run cfg r buf).1 := by
+  intro n
+  induction n with
+  | zero =>
+    intro r buf hn hI
+    have : buf = [] := List.length_eq_zero_iff.mp (by omega)
+    subst this
+    rw [run_nil]; exact hI
+  | succ n ih =>
+    intro r buf hn hI
+    by_cases hne : buf = []
+    · subst hne; rw [run_nil]; exact hI
+    · by_cases hinv : (RS.receive cfg r buf).2.2 = .invalid
+      · have he : buf.isEmpty = false := by cases buf <;> simp_all
+        simp only [run, loop, he, Bool.false_eq_true, if_false, hinv, beq_self_eq_true, if_true]
+        have := inv_step cfg r buf hI
+        rw [hinv] at this
+        exact this
+      · rw [run_cons cfg r buf hI hne hinv]
+        have hlt := receive_lt cfg r buf hI hne hinv
+        exact ih _ _ (by omega) (inv_step cfg r buf hI)
+
+/-! ### one `receive` call on `a ++ b` versus the loop over `a` followed by `b` -/
+
+/-- two runs with the same observable behaviour -/
+def REq (x y : RS × Bytes × List Ev) : Prop :=
+  x.1 = y.1 ∧ x.2.1 = y.2.1 ∧ pay x.2.2 = pay y.2.2 ∧ (okE x.2.2 ↔ okE y.2.2)
+
+theorem REq.rfl' (x : RS × Bytes × List Ev) : REq x x := ⟨rfl, rfl, rfl, Iff.rfl⟩
+
+/-- an INCOMPLETE result is not a delivery -/
+theorem REq_skip (e : Ev) (x y : RS × Bytes × List Ev) (he : e.1 = .incomplete)
+    (h : REq x y) : REq x (consE e y) := by
+  obtain ⟨h1, h2, h3, h4⟩ := h
+  refine ⟨h1, h2, ?_, ?_⟩
+  · simp only [consE]
+    rw [pay_cons, h3]
+    simp [pay, he]
+  · simp only [consE, okE_cons, h4]
+    simp [he]
+
+theorem split_fin (cfg : Cfg) (p p' : RS × Bytes × Rx) (b : Bytes) (h : p = (p'.1, p'.2.1 ++ b, p'.2.2))
+    (hinv : p.2.2 ≠ .invalid) :
+    p'.2.2 ≠ .invalid ∧
+    REq (stepRun cfg p) (consE (p'.2.2, p'.1) (run cfg (RS.afterResult p'.1 p'.2.2) (p'.2.1 ++ b))) := by
+  subst h
+  exact ⟨hinv, REq.rfl' _⟩
+
+theorem split_cont (cfg : Cfg) (p p' : RS × Bytes × Rx) (b : Bytes) (r' : RS) (h' : p' = (r', [], .incomplete))
+    (h : p = RS.receive cfg r' b) (hI : Inv cfg r') (hb : b ≠ []) (hinv : p.2.2 ≠ .invalid) :
+    p'.2.2 ≠ .invalid ∧
+    REq (stepRun cfg p) (consE (p'.2.2, p'.1) (run cfg (RS.afterResult p'.1 p'.2.2) (p'.2.1 ++ b))) := by
+  subst h h'
+  refine ⟨by simp, ?_⟩
+  simp only [RS.afterResult, List.nil_append]
+  rw [← run_cons cfg r' b hI hb hinv]
+  exact REq_skip _ _ _ rfl (REq.rfl' _)
+
+
+theorem tail_split (cfg : Cfg) (r : RS) (rp : Bool) (x b : Bytes) (hv : r.response.valid = true) (hb : b ≠ [])
+    (hle : r.response.headers.isChunked = false → lengthless r = false →
+      0 ≤ r.response.headers.contentLength → (r.body.length : Int) ≤ r.response.headers.contentLength)
+    (hck : r.chunk.valid = false → CK.done r.chunk = false)
+    (hinv : (C05.RS_tail cfg r rp (x ++ b)).2.2 ≠ .invalid)
+    (hfin : (stepRun cfg (C05.RS_tail cfg r rp (x ++ b))).1 = {})
+    (hI1 : Inv cfg (RS.afterResult (C05.RS_tail cfg r rp x).1 (C05.RS_tail cfg r rp x).2.2)) :
+    (C05.RS_tail cfg r rp x).2.2 ≠ .invalid ∧
+    REq (stepRun cfg (C05.RS_tail cfg r rp (x ++ b)))
+      (consE ((C05.RS_tail cfg r rp x).2.2, (C05.RS_tail cfg r rp x).1)
+        (run cfg (RS.afterResult (C05.RS_tail cfg r rp x).1 (C05.RS_tail cfg r rp x).2.2)
+          ((C05.RS_tail cfg r rp x).2.1 ++ b))) := by
+  cases hc : r.response.headers.isChunked
+  · -- body delimited by Content-Length
+    have e : ∀ buf, C05.RS_tail cfg r rp buf = C05.RS_body cfg r buf := by
+      intro buf; simp [C05.RS_tail, hc]
+    rw [e x] at hI1 ⊢
+    rw [e (x ++ b)] at hinv hfin ⊢
+    have hxb : x ++ b ≠ [] := by simp [hb]
+    cases hL : lengthless r
+    · have hcl : ¬ r.response.headers.contentLength < 0 := by
+        intro h
+        apply hinv
+        rw [body_known cfg r _ hL, if_pos h]
+      have eX : C05.RS_body cfg r x = accum r x := by rw [body_known cfg r _ hL, if_neg hcl]
+      have eXB : C05.RS_body cfg r (x ++ b) = accum r (x ++ b) := by rw [body_known cfg r _ hL, if_neg hcl]
+      have hle' := hle hc hL (by omega)
+      by_cases hshort : (r.body.length : Int) + x.length < r.response.headers.contentLength
+      · rw [accum_short r x hshort] at eX
+        rw [accum_short_append r x b hshort] at eXB
+        have hrec : RS.receive cfg { r with body := r.body ++ x } b = accum { r with body := r.body ++ x } b := by
+          rw [C05.RS_receive_valid cfg { r with body := r.body ++ x } b hv]
+          have e' : C05.RS_tail cfg { r with body := r.body ++ x } false b =
+              C05.RS_body cfg { r with body := r.body ++ x } b := by simp [C05.RS_tail, hc]
+          rw [e', body_known cfg { r with body := r.body ++ x } b hL, if_neg hcl]
+        rw [← hrec] at eXB
+        have hI' : Inv cfg { r with body := r.body ++ x } := by
+          have := hI1
+          rw [eX] at this
+          exact this
+        exact split_cont cfg _ _ b _ eX eXB hI' hb hinv
+      · obtain ⟨hl1, hl2⟩ := accum_long r x b hle' (by omega)
+        rw [← eX] at hl1
+        rw [← eX, ← eXB, ← hl1] at hl2
+        exact split_fin cfg _ _ b hl2 hinv
+    · -- no Content-Length and bytes in the buffer: the response can never complete
+      exfalso
+      have h := body_lengthless cfg r (x ++ b) hL hxb hinv
+      rw [h] at hfin
+      simp only [stepRun, consE, RS.afterResult, run_nil] at hfin
+      have := congrArg RS.body hfin
+      simp only [List.append_eq_nil_iff] at this
+      exact hb this.2.2
+  · -- chunked
+    rw [tail_chunked cfg r rp x hc] at hI1 ⊢
+    rw [tail_chunked cfg r rp (x ++ b) hc] at hinv ⊢
+    cases rp with
+    | true =>
+      simp only [if_true] at hinv ⊢
+      exact split_fin cfg (reset r, x ++ b, Rx.valid) (reset r, x, Rx.valid) b rfl (by simp)
+    | false =>
+      simp only [Bool.false_eq_true, if_false] at hinv hI1 ⊢
+      obtain ⟨f1, _, f6, f7⟩ := reset_facts r
+      have hd0 := f7 hck
+      by_cases hcnd : (CK.done (CK.parse cfg (reset r).chunk x).1 ||
+          !(CK.parse cfg (reset r).chunk x).2.1.isEmpty) = true
+      · apply split_fin cfg _ _ b _ hinv
+        exact chunkParse_fin cfg (reset r) x b f6 hd0 hcnd
+      · have hcnd' : (CK.done (CK.parse cfg (reset r).chunk x).1 ||
+            !(CK.parse cfg (reset r).chunk x).2.1.isEmpty) = false := by simpa using hcnd
+        obtain ⟨c1, c2, _, c4⟩ := chunkParse_cont cfg (reset r) x b f6 hd0 hcnd'
+        have hv' : ({ reset r with chunk := (CK.parse cfg (reset r).chunk x).1 } : RS).response.valid = true := by
+          show (reset r).response.valid = true
+          rw [f1]; exact hv
+        have hc' : ({ reset r with chunk := (CK.parse cfg (reset r).chunk x).1 } : RS).response.headers.isChunked
+            = true := by
+          show (reset r).response.headers.isChunked = true
+          rw [f1]; exact hc
+        have hrec : RS.receive cfg { reset r with chunk := (CK.parse cfg (reset r).chunk x).1 } b =
+            chunkParse cfg { reset r with chunk := (CK.parse cfg (reset r).chunk x).1 } b := by
+          rw [C05.RS_receive_valid cfg _ b hv', tail_chunked cfg _ false b hc']
+          simp only [Bool.false_eq_true, if_false]
+          rw [reset_of_not_valid { reset r with chunk := (CK.parse cfg (reset r).chunk x).1 } c2]
+        have eXB := c4.trans hrec.symm
+        have hI' : Inv cfg { reset r with chunk := (CK.parse cfg (reset r).chunk x).1 } := by
+          have := hI1
+          rw [c1] at this
+          exact this
+        exact split_cont cfg _ _ b _ c1 eXB hI' hb hinv
+
+theorem step_split (cfg : Cfg) (r : RS) (a b : Bytes) (hI : Inv cfg r) (hb : b ≠ [])
+    (hinv : (RS.receive cfg r (a ++ b)).2.2 ≠ .invalid)
+    (hfin : (stepRun cfg (RS.receive cfg r (a ++ b))).1 = {}) :
+    (RS.receive cfg r a).2.2 ≠ .invalid ∧
+    REq (stepRun cfg (RS.receive cfg r (a ++ b)))
+      (consE ((RS.receive cfg r a).2.2, (RS.receive cfg r a).1)
+        (run cfg (RS.afterResult (RS.receive cfg r a).1 (RS.receive cfg r a).2.2)
+          ((RS.receive cfg r a).2.1 ++ b))) := by
+  have hI1 := inv_step cfg r a hI
+  obtain ⟨⟨ok1, _, ok3⟩, hA, hC⟩ := hI
+  by_cases hv : r.response.valid = true
+  · rw [C05.RS_receive_valid cfg r a hv] at hI1 ⊢
+    rw [C05.RS_receive_valid cfg r (a ++ b) hv] at hinv hfin ⊢
+    refine tail_split cfg r false a b hv hb ?_ hC hinv hfin hI1
+    intro hc hL _
+    have := (ok1 hv hc).1 hL
+    omega
+  · have hv' : r.response.valid = false := by simpa using hv
+    have hd := hA hv'
+    have hval := RP_parse_valid cfg r.response a hv'
+    have law := RP.parse_seq cfg r.response a b hd
+    by_cases hbo : (RP.parse cfg r.response a).2.2 = true
+    · -- the head is completed inside `a`
+      rw [hbo] at hval
+      have hdone : RP.done (RP.parse cfg r.response a).1 = true := by simp [RP.done, hval]
+      simp only [hdone, Bool.true_or, if_true] at law
+      have eA : RS.receive cfg r a =
+          C05.RS_tail cfg { r with response := (RP.parse cfg r.response a).1 } true
+            (RP.parse cfg r.response a).2.1 := by
+        rw [receive_head cfg r a hv']
+        simp [hbo]
+      have eAB : RS.receive cfg r (a ++ b) =
+          C05.RS_tail cfg { r with response := (RP.parse cfg r.response a).1 } true
+            ((RP.parse cfg r.response a).2.1 ++ b) := by
+        rw [receive_head cfg r (a ++ b) hv', law]
+        simp [hbo]
+      rw [eA] at hI1 ⊢
+      rw [eAB] at hinv hfin ⊢
+      refine tail_split cfg _ true _ b hval hb ?_ hC hinv hfin hI1
+      intro _ _ h0
+      show ((r.body.length : Nat) : Int) ≤ _
+      rw [ok3 hv']
+      exact h0
+    · have hbo' : (RP.parse cfg r.response a).2.2 = false := by simpa using hbo
+      rw [hbo'] at hval
+      by_cases hfail : (RP.parse cfg r.response a).1.fail = true ∨ (RP.parse cfg r.response a).2.1 ≠ []
+      · exfalso
+        obtain ⟨_, h2⟩ := RS.receive_head_fail_seq cfg r a b hv' hd ⟨hbo', hfail⟩
+        apply hinv
+        rw [h2]
+      · have hf : (RP.parse cfg r.response a).1.fail = false := by
+          cases h : (RP.parse cfg r.response a).1.fail
+          · rfl
+          · exact absurd (Or.inl h) hfail
+        have hr : (RP.parse cfg r.response a).2.1 = [] := by
+          cases h : (RP.parse cfg r.response a).2.1
+          · rfl
+          · exact absurd (Or.inr (by simp [h])) hfail
+        have hd1 := RP_done_of _ hval hf
+        obtain ⟨h1, h2⟩ := RS.receive_head_seq cfg r a b hv' hd ⟨hd1, hr⟩
+        have hI' : Inv cfg { r with response := (RP.parse cfg r.response a).1 } := by
+          have := hI1
+          rw [h1] at this
+          exact this
+        exact split_cont cfg _ _ b _ h1 h2 hI' hb hinv
+
+/-- two reads: the run over `a ++ b` is the run over `a` followed by the run over `b` -/
+theorem run_split (cfg : Cfg) (b : Bytes) (hb : b ≠ []) : ∀ (n : Nat) (a : Bytes) (r : RS), a.length ≤ n →
+    Inv cfg r → okE (run cfg r (a ++ b)).2.2 → (run cfg r (a ++ b)).2.1 = [] → (run cfg r (a ++ b)).1 = {} →
+    okE (run cfg r a).2.2 ∧ (run cfg r a).2.1 = [] ∧
+    okE (run cfg (run cfg r a).1 b).2.2 ∧ (run cfg (run cfg r a).1 b).2.1 = [] ∧
+    (run cfg (run cfg r a).1 b).1 = {} ∧
+    pay (run cfg r (a ++ b)).2.2 = pay (run cfg r a).2.2 ++ pay (run cfg (run cfg r a).1 b).2.2 := by
+  intro n
+  induction n with
+  | zero =>
+    intro a r hn hI hok hrest hst
+    have : a = [] := List.length_eq_zero_iff.mp (by omega)
+    subst this
+    rw [run_nil]
+    simp only [List.nil_append] at hok hrest hst
+    exact ⟨by simp [okE], rfl, hok, hrest, hst, by simp [pay]⟩
+  | succ n ih =>
+    intro a r hn hI hok hrest hst
+    by_cases ha : a = []
+    · subst ha
+      rw [run_nil]
+      simp only [List.nil_append] at hok hrest hst
+      exact ⟨by simp [okE], rfl, hok, hrest, hst, by simp [pay]⟩
+    · have hab : a ++ b ≠ [] := by simp [ha]
+      have hinv : (RS.receive cfg r (a ++ b)).2.2 ≠ .invalid := by
+        intro h
+        exact run_cons_invalid cfg r (a ++ b) hab h hok
+      rw [run_cons cfg r (a ++ b) hI hab hinv] at hok hrest hst ⊢
+      obtain ⟨hinv', e1, e2, e3, e4⟩ := step_split cfg r a b hI hb hinv hst
+      have hlt := receive_lt cfg r a hI ha hinv'
+      have hI' := inv_step cfg r a hI
+      simp only [consE] at e1 e2 e3 e4
+      rw [e1] at hst
+      rw [e2] at hrest
+      rw [e4, okE_cons] at hok
+      obtain ⟨i1, i2, i3, i4, i5, i6⟩ := ih (RS.receive cfg r a).2.1 _ (by omega) hI' hok.2 hrest hst
+      rw [e3, run_cons cfg r a hI ha hinv']
+      simp only [stepRun, consE]
+      refine ⟨(okE_cons _ _).mpr ⟨hinv', i1⟩, i2, i3, i4, i5, ?_⟩
+      rw [pay_cons, i6, pay_cons _ (run cfg _ (RS.receive cfg r a).2.1).2.2, List.append_assoc]
+
+theorem feedE_flatten (cfg : Cfg) (ps : List Bytes) (hne : ∀ p ∈ ps, p ≠ []) : ∀ (r : RS), Inv cfg r →
+    okE (run cfg r ps.flatten).2.2 → (run cfg r ps.flatten).2.1 = [] → (run cfg r ps.flatten).1 = {} →
+    pay (feedE cfg r ps).2 = pay (run cfg r ps.flatten).2.2 := by
+  induction ps with
+  | nil => intro r _ _ _ _; simp [feedE, run_nil]
+  | cons p ps ih =>
+    intro r hI hok hrest hst
+    simp only [feedE, List.flatten_cons] at hok hrest hst ⊢
+    by_cases hps : ps = []
+    · subst hps
+      simp [feedE]
+    · have hfl : ps.flatten ≠ [] := by
+        cases ps with
+        | nil => exact absurd rfl hps
+        | cons q qs =>
+          have := hne q (by simp)
+          simp [this]
+      obtain ⟨_, _, i3, i4, i5, i6⟩ := run_split cfg ps.flatten hfl _ p r (Nat.le_refl _) hI hok hrest hst
+      rw [pay_append, i6]
+      rw [ih (fun q hq => hne q (List.mem_cons_of_mem _ hq)) _ (run_inv cfg _ _ _ (Nat.le_refl _) hI) i3 i4 i5]
+
+end C07
+
+theorem C07_frag : C07_frag_statement := by
+  intro cfg bs hclean ps hps hne
+  obtain ⟨l1, l2, l3⟩ := C07.readLoop_loop cfg (bs.length + 1) {} bs []
+  simp only [RClean] at hclean
+  obtain ⟨c1, c2, c3⟩ := hclean
+  rw [l2] at c1
+  rw [l1] at c3
+  have hok : C07.okE (C07.run cfg {} bs).2.2 := by
+    intro e he
+    simp only [List.reverse_nil, List.map_nil, List.nil_append] at l3
+    rw [C07.run, ← l3] at he
+    obtain ⟨d, hd, rfl⟩ := List.mem_map.mp he
+    exact c2 d hd
+  rw [C07.payload_eq_pay, C07.payload_eq_pay, (C07.feed_feedE cfg ps {}).2, (C07.feed_feedE cfg [bs] {}).2]
+  subst hps
+  rw [C07.feedE_flatten cfg ps hne {} (C07.inv_init cfg) hok c1 c3]
+  simp [C07.feedE]
+
+/-- the hypothesis of `C07_frag` is satisfiable by a non-trivial stream: a response with a body, a chunked response
+    with a chunk extension and a trailer, and a response with an empty body -/
+example : RClean {} (b!"HTTP/1.1 200 OK\r\nContent-Length: 3\r\n\r\nabcHTTP/1.1 200 OK\r\nTransfer-Encoding: chunked\r\n\r\n2;x=1\r\nhi\r\n0\r\nT: v\r\n\r\nHTTP/1.1 204 None\r\nContent-Length: 0\r\n\r\n") := by
+  unfold RClean
+  decide +kernel
+
+example : rpayload (RS.feed {} {} [b!"HTTP/1.1 200 OK\r\nContent-Le", b!"ngth: 3\r\n\r\na",
+      b!"bcHTTP/1.1 204 None\r", b!"\nContent-Length: 0\r\n\r\n"]).2 =
+    rpayload (RS.feed {} {}
+      [b!"HTTP/1.1 200 OK\r\nContent-Length: 3\r\n\r\nabcHTTP/1.1 204 None\r\nContent-Length: 0\r\n\r\n"]).2 :=
+  C07_frag {} _ (by unfold RClean; decide +kernel) _ rfl (by decide)
+
 end Via
